@@ -52,7 +52,7 @@ META = dict(
          "Sampling scenarios cannot bound the sum over all participants for all epochs, nor show that no update timing rewards an epoch twice.",
     design_ref="DESIGN.md section 5, C11",
     note="Trusted: Coq kernel; go2coq/constdump; the harness. Epoch statistics (consensus/points.go) enter as observed inputs with a well-formedness hypothesis that the harness checks on the real node; "
-         "node-to-node agreement is checked by a follower node fed through ChainBridge.InsertChain (oracle), not proved. computeLiquidityStakeRewardsForEpoch is modelled (C11_liquidity_stake_exact); that it never returns ErrInvalidRewards for percentages <= 100 % is not proved. "
+         "node-to-node agreement of the epoch statistics is C11_statistics_identical_on_all_nodes over the model of consensus/points.go (Points.v, tied to the real node by C06's suite points; hypotheses: hash collision freedom, election as a function of the chain); agreement of the credited amounts themselves is additionally checked by a follower node fed through ChainBridge.InsertChain (oracle). computeLiquidityStakeRewardsForEpoch is modelled (C11_liquidity_stake_exact); that it never returns ErrInvalidRewards for percentages <= 100 % is not proved. "
          "Fixed in /repo a732e8e: updateLiquidityRewards advanced the cursor past an unrewarded epoch when more than 10 epochs were due.",
     technique="Coq proof (induction over lists/histories, lia/nia with explicit int64/uint64 wrap) over translated source + differential correspondence check on real contract code",
 )
